@@ -216,6 +216,15 @@ def r1c_cfg(text, cfg='debug'):
     """R1c: `#[cfg(debug_assertions)]` / `#[cfg(not(debug_assertions))]` items and statements:
     kept (attribute stripped) in the matching variant, erased in the other."""
     fired = 0
+    # `cfg!(debug_assertions)` / `cfg!(not(debug_assertions))` expressions become the constant of the variant
+    while True:
+        m = mask(text)
+        mo = re.search(r'\bcfg!\(\s*(not\(\s*)?debug_assertions\s*\)?\s*\)', m)
+        if not mo:
+            break
+        val = (cfg == 'debug') != bool(mo.group(1))
+        text = text[:mo.start()] + ('true' if val else 'false') + text[mo.end():]
+        fired += 1
     while True:
         m = mask(text)
         mo = re.search(r'#\[cfg\((not\()?debug_assertions\)?\)\]\s*', m)
